@@ -272,4 +272,30 @@ example : Cons { nSpecies := 3, nReact := 1, nEnv := 1, k := fun _ _ => 1, sub :
   intro r hr
   simp [Finset.sum_range_succ]
 
+/-- the hypotheses of `tauleap_conserves` are satisfiable with (stoichiometric change) × (firings of one leap) beyond the
+range of a C `int`: A → 3 B fired 10^9 times in one cell in one step, B gains 3·10^9 ≥ 2^31 molecules, and the law
+3 A + B keeps its total in every state (the counts of the theorem are unbounded integers; nothing may wrap) -/
+example : ∃ (e : EngIn) (c : Nat → Rat) (k : Counts), Cons e.net c ∧ Free e c ∧ TopoOK e ∧ WallZero e k ∧
+    (2 : Int) ^ 31 ≤ e.net.sto 1 0 * k.nr 0 0 ∧ (∀ x : State, total e c (tauLeapApply e k x) = total e c x) := by
+  let e : EngIn :=
+    { net := { nSpecies := 2, nReact := 1, nEnv := 1, k := fun _ _ => 1, sub := fun s _ => if s = 0 then 1 else 0,
+               sto := fun s _ => if s = 0 then -1 else 3, dcoef := fun _ _ => 0 },
+      topo := { nCells := 1, nSlots := fun _ => 0, nbr := fun _ _ => none, kout := fun _ _ _ => 0, kin := fun _ _ _ => 0 },
+      env := fun _ => 0, chem := fun _ _ => false, vol := fun _ => 1 }
+  let c : Nat → Rat := fun s => if s = 0 then 3 else 1
+  let k : Counts := { nr := fun _ _ => 1000000000, nd := fun _ _ _ => 0 }
+  have hc : Cons e.net c := by
+    intro r hr
+    simp [e, c, Finset.sum_range_succ]
+  have hf : Free e c := by
+    intro i s _ _ h
+    simp [e] at h
+  have ht : TopoOK e := by
+    intro i n j _ _ hn
+    simp [e] at hn
+  have hw : WallZero e k := by
+    intro i s n _
+    rfl
+  exact ⟨e, c, k, hc, hf, ht, hw, by simp [e, k], fun x => tauleap_conserves hc hf ht k hw x⟩
+
 end Strengths.C02
